@@ -743,3 +743,9 @@ mut("C20", "r3-duplicates-not-reset-per-batch", "log/output.go",
     "\t\tcurrentLine = nil\n\t\tduplicates = 0\n", "\t\tcurrentLine = nil\n", "C20-R3|log.writer / repetition count reset", comment="round-3 seed C20-c1")
 mut("C20", "r4-waitgroup-add-inside-goroutine", "log/output.go",
     "\tshutdownWaitGroup.Add(1)\n\tgo writerManager()\n}\n\nfunc writerManager() {\n\tdefer shutdownWaitGroup.Done()", "\tgo writerManager()\n}\n\nfunc writerManager() {\n\tshutdownWaitGroup.Add(1)\n\tdefer shutdownWaitGroup.Done()", "C20-R4|log.startWriter / wait group armed", comment="round-3 seed C20-c2")
+mut("C20", "r6-debugf-uses-trace-level", "log/input.go",
+    "\tif fastcheck(DebugLevel) {\n\t\tlog(DebugLevel, fmt.Sprintf(format, things...), nil)", "\tif fastcheck(TraceLevel) {\n\t\tlog(DebugLevel, fmt.Sprintf(format, things...), nil)", "C20-R6|log.Debugf / passes on DebugLevel")
+mut("C20", "r6-tracer-warning-labelled-info", "log/trace.go",
+    "\t\ttracer.log(WarningLevel, msg)", "\t\ttracer.log(InfoLevel, msg)", "C20-R6|log.(*ContextTracer).Warning / passes on WarningLevel")
+mut("C20", "r6-info-without-fastcheck", "log/input.go",
+    "\tif fastcheck(InfoLevel) {\n\t\tlog(InfoLevel, msg, nil)\n\t}", "\tlog(InfoLevel, msg, nil)", "C20-R6|log.Info / log() behind fastcheck")
